@@ -551,6 +551,7 @@ func genScenario(rng *rand.Rand) scenario {
 	n := 3 + rng.Intn(10)
 	stopped, started := false, sc.autostart
 	cancelsParent := false
+	nbursts := 0
 	for i := 0; i < n; i++ {
 		switch r := rng.Intn(100); {
 		case r < 38:
@@ -562,7 +563,8 @@ func genScenario(rng *rand.Rand) scenario {
 				own[ntask] = true
 			}
 			ntask++
-		case r < 47 && sc.limit > 0:
+		case r < 47 && sc.limit > 0 && nbursts < 2: // (at most two bursts: every blocked submitter multiplies the acceptor's state sets)
+			nbursts++
 			k := 2 + rng.Intn(2)
 			sc.actions = append(sc.actions, fmt.Sprintf("burst %d %s", k, []string{"pool", "never"}[rng.Intn(2)]))
 			for j := 0; j < k; j++ {
